@@ -961,6 +961,17 @@ def c08_family(tier, rnd):
     items = [Text("pre\n "), Open(rep=(False, ("x", "y"), var("x"))), Text("[", pipe(var("x"), const(S("u0"))), ",", pipe(var("y"), const(S("u0"))), "]"),
              CLOSE, Text("post")]
     progs.append(program(items, al.dom, init={"x": SEQ([SEQ([S("a"), S("b")]), SEQ([S("c"), S("p")])])}, fam="C08:selfref:unpack"))
+    # (b3) a loop whose body uses a macro that loops over the same name (nesting that exists at run time only): the outer
+    # loop's repeat variables are what they were when the macro has returned
+    for inner in ([SEQ([S("a"), S("b"), S("c")])], [SEQ([])], [SEQ([S("a")]), SEQ([S("a"), S("b"), S("c")])]):
+        al = Alloc(tier)
+        main = [Text("pre\n "), Open(rep=(False, "x", al.call("repeat", [RANGE(2)]))), _repbody("x", ["index", "number"]),
+                Open(um=("m1", 1, False), name="section", sattr=[]), Text("ign"), CLOSE,
+                Text("o"), _repbody("x", ["index", "number", "letter", "length", "end"]), CLOSE, Text("post")]
+        lib = [Open(dm="m1", name="ul", sattr=[]), Text("\n "), Open(rep=(False, "x", al.call("repeat", inner)), name="li", sattr=[]),
+               _repbody("x", ["number", "length"]), CLOSE, CLOSE]
+        progs.append(program(main + lib, al.dom, main=len(main), libs=[{"from": len(main) + 1, "to": len(main) + len(lib)}],
+                             fam="C08:macro-loop:%d" % len(inner[0]["vs"])))
     # (c) nesting with reused and distinct names; outer variables read after the inner loop
     names = ["x", "y"]
     for n1 in names:
